@@ -131,7 +131,7 @@ def run(ctx):
     # E1: the property predicates as invariants of the composite (spec/MC_Rapid.tla)
     mcrapid.check(ctx, ['RuntimeAfterRegistrations', 'NoEventBeforeAllNext'])
     # forced schedules through the pause points of /repo (-tags verif)
-    sc.run_families(ctx, forced.scenarios('c03', ('clear-vs-invoke',)), "forced-schedule")
+    sc.run_families(ctx, forced.scenarios('c03', ('clear-vs-invoke', 'register-vs-close')), "forced-schedule")
     ctx.assumptions += sc.ASSUME
     sc.run_families(ctx, scenarios(ctx), "initbarrier")
     ctx.coverage["exhaustive"] = False
